@@ -458,6 +458,48 @@ pub(crate) async fn run_actor_lifecycle<T: Actor>(
     mut receiver: mpsc::Receiver<MailboxMessage<T>>,
     mut terminate_receiver: mpsc::Receiver<ControlSignal>,
 ) -> ActorResult<T> {
+    use futures::FutureExt;
+
+    // Run the lifecycle, catching a panic so that the mailbox can be shut down properly first.
+    let outcome = std::panic::AssertUnwindSafe(actor_lifecycle_body(
+        args,
+        actor_ref,
+        &mut receiver,
+        &mut terminate_receiver,
+    ))
+    .catch_unwind()
+    .await;
+
+    // Shut the mailbox down completely: after `close()`, keep draining until no sender holds a
+    // permit any more. Just dropping the receiver drains only what is queued at that moment; a
+    // sender that had already been handed its permit pushes its message afterwards, and that
+    // message would never be dropped (every envelope holds an `ActorRef`, i.e. a sender of this
+    // very channel) - nor would its reply channel, so the `ask` waiting on it would hang forever.
+    // A permit is held only for an instant (between `reserve` and the push inside `send`, or by a
+    // woken sender that has not run yet), so yielding a few times is enough; `recv().await` cannot
+    // be used here because a sender that gives its permit back without sending does not wake it.
+    receiver.close();
+    loop {
+        while receiver.try_recv().is_ok() {}
+        if receiver.capacity() == receiver.max_capacity() {
+            break;
+        }
+        tokio::task::yield_now().await;
+    }
+
+    match outcome {
+        Ok(result) => result,
+        Err(panic) => std::panic::resume_unwind(panic),
+    }
+}
+
+/// The body of [`run_actor_lifecycle`]: `on_start`, the message loop and `on_stop`.
+async fn actor_lifecycle_body<T: Actor>(
+    args: T::Args,
+    actor_ref: ActorRef<T>,
+    receiver: &mut mpsc::Receiver<MailboxMessage<T>>,
+    terminate_receiver: &mut mpsc::Receiver<ControlSignal>,
+) -> ActorResult<T> {
     let actor_id = actor_ref.identity();
 
     #[cfg(feature = "tracing")]
